@@ -344,3 +344,11 @@ Definition orch (maxiter fuel : nat) (s : net) (o : ocall) : option net :=
             end)
       end
   end.
+
+(* ---- well-formedness of the wiring (what Arc.__init__ establishes): every arc a node lists as
+   outgoing starts at it, every arc it lists as incoming ends at it ---- *)
+Definition net_wfb (s : net) : bool :=
+  forallb (fun nN : nat * nnode =>
+    forallb (fun a => match nth_error (n_arcs s) a with Some A => Nat.eqb (na_src A) (fst nN) | None => false end) (nn_outs (snd nN)) &&
+    forallb (fun a => match nth_error (n_arcs s) a with Some A => Nat.eqb (na_dst A) (fst nN) | None => false end) (nn_ins (snd nN)))
+  (combine (seq 0 (length (n_nodes s))) (n_nodes s)).
